@@ -209,6 +209,102 @@ def rule_astfields(P) -> RuleResult:
 
 
 # ----------------------------------------------------------------------
+# R-FIELDONCE: along every derivation path of a rule a field is captured at most once (unless declared a list capture), and
+# every alternative of a node rule gives each field the same kind of value (a rule result vs. the constant of a flag keyword)
+
+def _field_paths(e, limit=4000):
+    """-> set of tuples (sorted multiset of (name, kind)) over the derivation paths of the expression; kind 'value' | 'flag'"""
+    G = _G()
+
+    def seq(a, b):
+        out = {tuple(sorted(x + y)) for x in a for y in b}
+        if len(out) > limit:
+            raise AnalysisError('grammar: too many derivation paths in one rule')
+        return out
+    if isinstance(e, G.NamedList):
+        inner = _field_paths(e.exp)
+        return {tuple(sorted(x + ((e.name.rstrip('_') + '+', 'list'),))) for x in inner}
+    if isinstance(e, G.Named):
+        kind = 'flag' if isinstance(e.exp, G.Constant) else 'value'
+        inner = _field_paths(e.exp)
+        return {tuple(sorted(x + ((e.name.rstrip('_'), kind),))) for x in inner}
+    if isinstance(e, G.Choice):
+        out = set()
+        for o in e.options:
+            out |= _field_paths(o)
+        return out
+    if isinstance(e, G.Sequence):
+        cur = {()}
+        for x in e.sequence:
+            cur = seq(cur, _field_paths(x))
+        return cur
+    if isinstance(e, G.Optional):
+        return {()} | _field_paths(e.exp)
+    if isinstance(e, (G.Closure, G.PositiveClosure, G.Join, G.PositiveJoin)) or type(e).__name__ in ('Gather', 'PositiveGather', 'EmptyClosure'):
+        inner = _field_paths(e.exp) if getattr(e, 'exp', None) is not None else {()}
+        # a capture inside a repetition is a capture made any number of times
+        return {tuple(sorted((n + '*', k) for n, k in x)) for x in inner} | {()}
+    out = {()}
+    for c in _children(e):
+        out = seq(out, _field_paths(c))
+    return out
+
+
+def rule_fieldonce(P) -> RuleResult:
+    res = RuleResult('R-FIELDONCE')
+    res.exhaustive = True
+    text, model, _ = _grammar(P.repo)
+    n = 0
+    for r in model.rules:
+        if not _cls(r):
+            continue
+        n += 1
+        construct = f'grammar:{r.name}'
+        paths = _field_paths(r.exp)
+        bad = None
+        for path in sorted(paths):
+            names = [nm for nm, k in path if not nm.rstrip('*').endswith('+')]      # `name+:` captures are lists by declaration
+            base = [nm.rstrip('*') for nm in names]
+            dup = sorted({b for b in base if base.count(b) > 1} | {nm.rstrip('*') for nm in names if nm.endswith('*')})
+            if dup:
+                bad = (dup, path)
+                break
+        if bad:
+            res.fail(construct, f'fieldonce:{bad[0][0].rstrip("*")}', f'rule {r.name}: on a derivation path the field `{bad[0][0].rstrip("*")}` is '
+                     f'captured more than once with `:` ({[nm for nm, _ in bad[1]]}): TatSu then collects the values into a list, and the '
+                     f'consumers of the node (which expect a date, a flag or a node) silently take none of their branches')
+            continue
+        # a flag (a constant captured after a keyword) is stored in the field named like its keyword
+        G = _G()
+        flags = []
+
+        def walk(x, kw):
+            if isinstance(x, G.Sequence):
+                for y in x.sequence:
+                    if isinstance(y, G.Token) and y.token.isalpha():
+                        kw = y.token
+                    else:
+                        walk(y, kw)
+                return
+            if isinstance(x, (G.Named, G.NamedList)) and isinstance(x.exp, G.Constant) and kw is not None:
+                flags.append((kw, x.name.rstrip('_')))
+                return
+            for c in _children(x):
+                walk(c, kw)
+        walk(r.exp, None)
+        wrong = [(kw, nm) for kw, nm in flags if nm != kw.lower() and str(kw).isalpha()]
+        if wrong:
+            kw, nm = wrong[0]
+            res.fail(construct, f'fieldonce:flag:{kw}', f'rule {r.name}: the flag of keyword {kw} is stored in field `{nm}`: the clause is '
+                     f'taken for another one')
+            continue
+        res.ok({'rule': r.name, 'derivation_paths': len(paths), 'fields_captured_at_most_once': True, 'flags': [f'{k}->{n}' for k, n in flags]})
+    if n < 30:
+        raise AnalysisError(f'only {n} rules with an AST class')
+    return res
+
+
+# ----------------------------------------------------------------------
 # R-SEMANTICS
 
 def rule_semantics(P) -> RuleResult:
